@@ -158,6 +158,15 @@ def _judge(spec, b, out) -> dict:
         for bl in pg.blocks:
             role, info = docspec.block_role(bl)
             if bl.kind == "row":
+                if role == "row_other" and len(bl.cells) == 1 and not bl.cells[0].text.strip():
+                    # a blank-text footnote/source spacer cannot carry a tag: a single-cell blank row, told apart by its exact text
+                    t = bl.cells[0].text
+                    if spec.get("footnote_text") is not None and t == spec["footnote_text"]:
+                        role = "footnote_table"
+                        bump("blank-text-component-rows")
+                    elif spec.get("source_text") is not None and t == spec["source_text"]:
+                        role = "source_table"
+                        bump("blank-text-component-rows")
                 rows.append((bl, role, info))
             elif role in ("footnote_para", "source_para"):
                 paras.append(role)
@@ -448,11 +457,14 @@ def plan(run):
         "the four settings x a 2-page anchor set; per-cell user-border matrices on interior rows of one-page documents; header variants "
         "(auto header, two header rows, pageby_header=False); exactly one of rtf_page.border_last / rtf_body.border_last = '' with distinct own "
         "border_bottom on table-rendered footnote/source x the 162 cells x sizes (x strategies), each document encoded twice and both outputs judged; "
+        "table-rendered footnote / source with blank texts ' ' / '  ' (each alone, both, next to a paragraph one) x placements x sizes; "
         "2- and 3-section documents, distinct user styles per section, sections with / without headers (clauses 1, 2 and clause 5 inside sections and at section joints). "
         "non-trivial = >= 2 pages or a table-rendered footnote/source closes the table; distinct = distinct spec")
     run.assumptions = [
         "the RTF reader (mc/rtfreader) and the role classification by sentinel tags are correct; a side without \\clbrdrX or without a style word is 'no border'",
         "only border styles are compared; widths and colours belong to C09",
+        "a blank-text footnote/source row carries no tag and is recognised as the single-cell blank row with exactly the configured text; the closing clauses "
+        "are applied to whatever is the last table row of the page / document",
         "the four page/body settings range over the 14 non-empty styles with distinct RTF codes ('striped' shares the code of 'engraved' and is left out; "
         "'' as rtf_page.border_last or rtf_body.border_last (exactly one of them, layer one-empty-closing-style-encoded-twice) is ambiguous "
         "between 'no line' and 'no override' and is read the safe way: the closing row shows nothing or its own requested border_bottom, never "
@@ -561,6 +573,26 @@ def plan(run):
                         em.append(table_spec(fn, src, pf, ps, hm, strat, "2", a, "scalar", **more))
     run.layer("one-empty-closing-style-encoded-twice", "mc.props.c07:eval_case", em, chunk=80, total=len(em))
 
+    # blank-but-non-empty texts (" ", "  ") for table-rendered footnote / source: the blank row is rendered and is then
+    # the last table row of its page; the closing clauses hold on whatever IS the last table row
+    bl = []
+    a = assignment(rots[0])
+    for fn, src, ft, st in (("table", None, " ", None), (None, "table", None, "  "), ("table", "table", " ", "  "),
+                            ("table", "para", "  ", None), ("para", "table", None, " ")):
+        for pf, ps in itertools.product(PLACE, repeat=2):
+            if (fn is None and pf != "last") or (src is None and ps != "last"):
+                continue
+            for hm in ("explicit", "none"):
+                for strat in (("plain",) if quick else ("plain", "page_by", "subline_by")):
+                    for sc in ("1", "2", "3"):
+                        more = {}
+                        if ft is not None:
+                            more["footnote_text"] = ft
+                        if st is not None:
+                            more["source_text"] = st
+                        bl.append(table_spec(fn, src, pf, ps, hm, strat, sc, a, "scalar", **more))
+    run.layer("blank-text-table-components", "mc.props.c07:eval_case", bl, chunk=40, total=len(bl))
+
     # multi-section documents: clauses 1 and 2, and clause 5 inside sections and where sections meet
     ms = []
     for k in (rots if not quick else rots[:1]):
@@ -581,6 +613,9 @@ def plan(run):
     run.layer("multi-section-first-last", "mc.props.c07:eval_case", ms, chunk=80, total=len(ms))
 
     # vacuity guards
+    if not run.cnt.get("blank-text-component-rows") and not run.viol:
+        # (when the blank rows are missing AND the closing clauses fail, that is the violation itself, not a vacuous run)
+        run.harness_errors.append({"layer": "vacuity", "case": None, "error": "vacuity guard: no blank-text footnote/source row was ever rendered"})
     for need in ("pages=1", "pages=2", "pages=3", "c1-edges", "c2-edges", "c3-edges", "c4-edges", "c5-edges", "multi",
                  "plain:pages=1", "page_by:pages=1", "subline_by:pages=1", "plain:pages=2", "page_by:pages=2", "subline_by:pages=2",
                  "plain:pages=3", "page_by:pages=3", "subline_by:pages=3",
